@@ -51,8 +51,10 @@ def _globals_for(modules):
 
 
 def catalog():
-    from . import c01, c02
+    from . import c01, c02, c14
     return {
+        "eqvol": ("eqvol", 15, "equivalent-volume-sphere radius mode agrees with form_volume in every model", c14.make_c_rule("R-C14-eqvol")),
+        "modes": ("modes", 55, "radius_effective mode list <-> case labels in every model", c14.make_c_rule("R-C14-modes")),
         "carry": ("carry", 300, "kernel accumulators carried/reset correctly across invocations (all units)", _kernel_rule("R-C01-carry")),
         "gate": ("gate", 300, "VALID and strict cutoff gate every accumulation (all units)", _kernel_rule("R-C01-gate")),
         "loops": ("loops", 300, "counted loops of every kernel run 0 <= i < bound, step 1 (all units)", _kernel_rule("R-C01-loops")),
